@@ -914,8 +914,8 @@ impl Engine for IoSim {
     }
     fn budget(prop: &str, tier: Tier) -> (u64, u64) {
         match (prop, tier) {
-            (_, Tier::Quick) => (400_000, 45),
-            (_, Tier::Thorough) => (20_000_000, 600),
+            (_, Tier::Quick) => (3_000_000, 45),
+            (_, Tier::Thorough) => (100_000_000, 600),
         }
     }
     fn gen_config(prop: &str, tier: Tier, rng: &mut Rng) -> Config {
